@@ -1066,18 +1066,39 @@ impl TypeChecker {
         // dependencies between them. This means that we process them in a loop
         // where we exit either if we have no unresolved imports anymore or when
         // we can no longer make progress, in which case we error.
+        //
+        // The first segment of an import is looked up like any other name:
+        // among the imports of this scope before the enclosing scopes. So
+        // an import has to wait as long as this scope still has an unresolved
+        // import that is going to bind the name of its first segment,
+        // otherwise it could be resolved to an item further out.
         let mut paths = paths.to_vec();
         loop {
             let last_len = paths.len();
-            paths.retain(|p| self.import(scope, p).is_err());
+            let unresolved = paths.clone();
+            let waits_for = |p: &ast::Path| {
+                unresolved.iter().find(|other| {
+                    !std::ptr::eq(&other.node, p)
+                        && other.idents.len() > 1
+                        && other.idents.last().map(|i| i.node)
+                            == p.idents.first().map(|i| i.node)
+                })
+            };
+            paths.retain(|p| {
+                waits_for(p).is_some() || self.import(scope, p).is_err()
+            });
             let new_len = paths.len();
             if new_len == 0 {
                 return Ok(());
             }
             if new_len == last_len {
                 for p in &paths {
-                    self.import(scope, p)?;
+                    if waits_for(p).is_none() {
+                        self.import(scope, p)?;
+                    }
                 }
+                // Only imports that wait for each other are left
+                return Err(self.error_not_defined(&paths[0].idents[0]));
             }
         }
     }
